@@ -10,6 +10,11 @@ decoder) and judged by the reference queues (Spec/QueueSpec.v).
 History item:  ["env", step] | ["req", timeout_or_None, [step, ...]]
 step: ["arrive", [b..]] | ["unget", [b..]] | ["trigger", i, id] | ["sched", when, id]
       | ["ts", i, id] | ["tsappend", i, id] | ["tswrite", i] | ["sigint", k] | ["signal", n] | ["tick", d]
+      | ["late", d]
+["late", d] is a LATE select wake-up (Model/InputQ.v `Late d`): when a select call that has a timeout reaches it
+in the script with nothing ready, the call times out with the clock at its deadline + max(0, d) -- a real select
+always returns a little late, and only then does the pop site for scheduled events BEHIND the wait in _send fire.
+Anywhere else (select without timeout, between requests, left over after the request) it does nothing.
 The script of a request is what the environment does while the request is blocked
 in select (consumed in order until a descriptor is ready or the timeout expires;
 the rest happens right after the request returns).  With "threaded": true the
@@ -184,6 +189,8 @@ class Env:
             os.kill(os.getpid(), SIGOTHER)
         elif k == "tick":
             self.clock.t += max(0, step[1])
+        elif k == "late":
+            pass        # only meaningful inside a select call that has a timeout (see select below)
         else:
             raise HarnessError("unknown step %r" % (step,))
 
@@ -221,6 +228,12 @@ class Env:
                     return [], [], []
                 self.clock.t += d
                 self.script.pop(0)
+                continue
+            if step[0] == "late":
+                self.script.pop(0)
+                if timeout is not None:
+                    self.clock.t = max(self.clock.t, tcall + timeout) + max(0, step[1])
+                    return [], [], []
                 continue
             self.script.pop(0)
             if self.threaded and step[0] in ("arrive", "ts", "tswrite", "sigint", "signal"):
@@ -418,6 +431,8 @@ def _step(s):
         return "Signal %d" % int(SIGOTHER)
     if k == "tick":
         return "Tick %s" % _z(s[1])
+    if k == "late":
+        return "Late %s" % _z(s[1])
     raise ValueError(s)
 
 
@@ -521,6 +536,11 @@ def stats(inp, out):
         yield "delivered_after_waiting"
     if any(len(d) == READ_SIZE for _, d in out["reads"]):
         yield "full_READ_SIZE_read"
+    reqs = [it for it in inp["hist"] if it[0] == "req"]
+    for it, (o, c0, c1) in zip(reqs, out["trace"]):
+        if o[0] == "event" and 3000 < o[1] < 4000 and c1 > c0 and any(s[0] == "late" for s in it[2]):
+            yield "scheduled_event_popped_behind_a_late_wait"
+            break
 
 
 READ_SIZE = ci.READ_SIZE
@@ -670,7 +690,7 @@ class _Gen:
         if self.held:
             kinds += ["tswrite"] * 2
         if during:
-            kinds = [k for k in kinds if k not in ("sched", "unget")] + ["tick"] * 3
+            kinds = [k for k in kinds if k not in ("sched", "unget")] + ["tick"] * 3 + ["late"] * 2
         if self.inside:
             kinds = [k for k in kinds if k != "unget"]     # ungot bytes would land inside a split character
         k = rng.choice(kinds)
@@ -709,6 +729,10 @@ class _Gen:
             return [["sigint", self.nid("sig")]]
         if k == "signal":
             return [["signal", int(SIGOTHER)]]
+        if k == "late":
+            d = rng.choice([1, 1, 2, 3])
+            self.clock += d
+            return [["late", d]]
         d = rng.choice([1, 1, 2, 3, 7])
         self.clock += d
         return [["tick", d]]
@@ -785,9 +809,49 @@ def _burst_case(rng, size):
     return g.build(rng.choice([0, 2, 4]), 40 if g.paste is None else 12)
 
 
+def _sched_case(rng):
+    """several scheduled events pending at once, scheduled out of time order (equal times included), collected
+    by requests that BLOCK until the next one is due (timeout None / larger than the wait), so that each is
+    delivered by the pop site behind the select (most of these requests have a LATE wake-up in their script: an exact
+    one never reaches that site), with further events scheduled in between"""
+    g = _Gen(rng, "quick", "sched")
+    g.threaded = False
+    g.inside = False
+    pending = 0
+    for _ in range(rng.choice([1, 2, 2, 3])):
+        k = rng.choice([3, 3, 4, 5, 6])
+        whens = [g.clock + rng.choice([1, 2, 3, 4, 6, 9, 12]) for _ in range(k)]
+        rng.shuffle(whens)
+        if sorted(whens) == whens and k > 1:
+            whens[0], whens[-1] = whens[-1], whens[0]
+        for w in whens:
+            g.hist.append(["env", ["sched", w, g.nid("sc")]])
+        pending += k
+        if rng.random() < 0.3:
+            g.hist += [["env", s] for s in g.inject() if s[0] in ("trigger", "tick")]
+        for _ in range(rng.randint(1, pending)):
+            t = rng.choice([None, None, 20, 30, 2, 3])
+            script = []
+            r = rng.random()
+            if r < 0.7:
+                script.append(["late", rng.choice([1, 1, 2])])          # the wait ends late: pop site behind the wait
+            elif r < 0.8:
+                script += [["tick", 1], ["late", rng.choice([1, 2])]]
+            elif r < 0.9:
+                script.append(["tick", rng.choice([1, 2])])
+            g.hist.append(["req", t, script])
+            pending -= 1
+            g.clock += rng.choice([1, 2, 3])
+    g.pend = pending + 2
+    return g.build(0, 12)
+
+
 def generate(rng, tier):
     n = 2500 if tier == "thorough" else 330
-    for _ in range(n):
+    for i in range(n):
+        if i % 8 == 7:
+            yield _sched_case(rng)
+            continue
         g = _Gen(rng, tier, "mixed")
         yield g.build(rng.choice([4, 8, 12, 20, 30]), 60)
     sizes = [300, 1100, 2500, 5000, 8192] * (6 if tier == "thorough" else 1)
@@ -817,7 +881,11 @@ RULE = ("random histories (5-90 items) over: byte arrivals built from ASCII/cont
         "timeout 0 / 1-10 / None (None only when something is pending or the script ends with a waking step), each "
         "with a script of environment steps performed while it is blocked in select; 35% of cases perform the "
         "waking steps from a helper thread while the main thread is really blocked inside select.select; every "
-        "history ends with a drain (clock +50, requests with timeout 0); plus bursts of 0.3-8 KiB of multi-byte "
+        "history ends with a drain (clock +50, requests with timeout 0); every 8th case is a scheduler history: 3-6 events "
+        "scheduled out of time order (equal times included), collected by requests that block until the next one is due, "
+        "with more events scheduled in between, most of them with a LATE select wake-up in the script (the select of the harness "
+        "and of the model otherwise times out exactly at its deadline, where `when < time.time()` is still false and the pop "
+        "site behind the wait is never taken); late wake-ups also occur in the scripts of the mixed profile; plus bursts of 0.3-8 KiB of multi-byte "
         "characters and escape sequences; paste_threshold in {None,0,1,7,8,100,1024}; encodings utf-8 (85%), "
         "latin-1, ascii; key naming bytes (50%, makes the byte stream observable exactly), curtsies, curses. "
         "Streams never put a byte >= 0x80 directly behind an ESC sequence (finding F-C03, reported under C03). "
@@ -832,7 +900,7 @@ TRUSTED = [
     "stream with ungot bytes placed in front of what the kernel still holds)",
     "environment model inside Model/InputQ.v, validated by the correspondence but not proved against anything: "
     "select() returns ready descriptors in argument order, a tty in non-canonical mode is a byte FIFO and os.read "
-    "returns min(READ_SIZE, available), pipes never fill up, a signal handler has run when the wake-up byte is seen, "
+    "returns min(READ_SIZE, available), a select timeout fires at its deadline or (step Late d) d later, pipes never fill up, a signal handler has run when the wake-up byte is seen, "
     "list.append/pop are atomic (GIL), list.sort is stable, integer clock",
     "harness: pty setup, fake clock / select / os proxies described in the module docstring of harness/props/c08.py, "
     "canonicaliser and the parser of coqc's answer; translator gen/gen_tables.py (MAX_KEYPRESS_SIZE, READ_SIZE, key tables)",
